@@ -769,6 +769,11 @@ func (p *CaseForm) typecheckForm(gammaNameTypesCtx NamesTypesCtx, providerShadow
 				return TypeErrorf("case labelled '%s' does not match the branches of type '%s'", curBranchForm.StringShort(), clientSelectLabelType.String())
 			}
 
+			// curBranchForm.payload_c cannot be the name that refers to the provider
+			if isProvider(curBranchForm.payload_c, providerShadowName) {
+				return TypeErrorf("you cannot assign self to a new channel (%s)", curBranchForm.StringShort())
+			}
+
 			// curBranchForm.payload_c cannot exist in gammaNameTypesCtx
 			if nameTypeExists(gammaNameTypesCtx, curBranchForm.payload_c.Ident) {
 				// Name is not fresh
@@ -827,6 +832,11 @@ func (p *NewForm) typecheckForm(gammaNameTypesCtx NamesTypesCtx, providerShadowN
 	//		// Names are not fresh
 	//		return TypeErrorf("the cut rule requires a new variable; %s is already assigned", p.new_name_c.String())
 	//	}
+	if isProvider(p.new_name_c, providerShadowName) {
+		// the new name would capture the name that refers to the provider
+		return TypeErrorf("you cannot assign self to a new channel (%s)", p.StringShort())
+	}
+
 	_, new_name_reused := gammaNameTypesCtx[p.new_name_c.Ident]
 
 	if !new_name_reused && nameInNames(p.new_name_c, p.body.FreeNames()...) {
@@ -1259,6 +1269,11 @@ func (p *SplitForm) typecheckForm(gammaNameTypesCtx NamesTypesCtx, providerShado
 
 	if err != nil {
 		return TypeErrorE(err)
+	}
+
+	if isProvider(p.channel_one, providerShadowName) || isProvider(p.channel_two, providerShadowName) {
+		// Unwanted reference to self
+		return TypeErrorf("you cannot assign self to a new channel (%s)", p.String())
 	}
 
 	// Ensure new names
